@@ -50,9 +50,12 @@ CPU_LIMIT = 25.0        # CPU-seconds one document may use before it is declared
 def asan_env():
     rt = subprocess.run(["clang", "-print-file-name=libclang_rt.asan-x86_64.so"], capture_output=True, text=True).stdout.strip()
     return dict(os.environ, LD_PRELOAD=rt,
+                # no rss-limit option: it starts a sanitizer background thread, and a fork()ed child of a multi-threaded
+                # server can spin forever on a lock owned by a thread that does not exist in the child
                 ASAN_OPTIONS="detect_leaks=0:abort_on_error=0:exitcode=99:allocator_may_return_null=1:max_allocation_size_mb=3000:"
-                             "hard_rss_limit_mb=6000:detect_stack_use_after_return=0:handle_segv=1",
-                UBSAN_OPTIONS="halt_on_error=1:exitcode=98:print_stacktrace=1", PYTHONHASHSEED="0")
+                             "detect_stack_use_after_return=0:handle_segv=1",
+                UBSAN_OPTIONS="halt_on_error=1:exitcode=98:print_stacktrace=1", PYTHONHASHSEED="0",
+                OPENBLAS_NUM_THREADS="1", OMP_NUM_THREADS="1", MKL_NUM_THREADS="1")
 
 
 def cpu_seconds(pid):
@@ -62,6 +65,18 @@ def cpu_seconds(pid):
         return (int(f[11]) + int(f[12])) / os.sysconf("SC_CLK_TCK")
     except (OSError, IndexError, ValueError):
         return None
+
+
+def rss_mb(pid):
+    try:
+        with open("/proc/%d/statm" % pid) as fh:
+            return int(fh.read().split()[1]) * os.sysconf("SC_PAGE_SIZE") / 1e6
+    except (OSError, IndexError, ValueError):
+        return 0.0
+
+
+RSS_LIMIT_MB = 5000.0
+CPU_LIMIT_CONFIRM = 40.0     # a hang is only reported if the document, alone in a fresh process, burns this much CPU (or the RSS limit)
 
 
 def report_key(stderr):
@@ -231,7 +246,9 @@ class Runner:
                         cpu = cpu_seconds(job["pid"])
                         if cur != job["cur"]:
                             job["cur"], job["cpu0"] = cur, cpu
-                        elif cpu is not None and job["cpu0"] is not None and cur >= 0 and cpu - job["cpu0"] > self.cpu_limit:
+                        elif cur >= 0 and ((cpu is not None and job["cpu0"] is not None and
+                                            cpu - job["cpu0"] > (self.cpu_limit if job.get("kind") == "batch" else CPU_LIMIT_CONFIRM))
+                                           or rss_mb(job["pid"]) > RSS_LIMIT_MB):
                             try:
                                 os.kill(job["pid"], 9)
                             except OSError:
@@ -431,12 +448,16 @@ def run(ctx):
             also.setdefault(index[x], []).append(k)
     import collections
     import sys
+    only = os.environ.get("C37_ONLY")            # debugging aid: restrict to document kinds with this prefix
+    if only:
+        uniq = [(k, x) for k, x in uniq if any(meta[kk][0].startswith(only) for kk in [k] + also.get(k, []))]
+        ctx.exhaustive = False
     bykind = collections.Counter(meta[k][0] for k, _ in uniq)
     ctx.extra["documents_by_kind"] = dict(bykind)
     sys.stderr.write("C37: %d distinct documents: %s\n" % (len(uniq), dict(bykind)))
     r = ctx.seed % max(1, len(uniq))
     order = uniq[r:] + uniq[:r]
-    runner = Runner("asan", min(core.NCPU, 16), tmp, ctx.q(8.0, CPU_LIMIT))
+    runner = Runner(os.environ.get("C37_VARIANT", "asan"), min(core.NCPU, 16), tmp, ctx.q(5.0, CPU_LIMIT))
     try:
         results, crashes = runner.run(order, group={k: meta[k][2] for k, _ in uniq})
     finally:
@@ -451,6 +472,10 @@ def run(ctx):
     for k, x in uniq:
         kind, desc, base, hk, expect = meta[k]
         ident = "%s | %s %s" % (base, kind, desc)
+        if k in crashes and not crashes[k].get("confirmed_single") and k in results:
+            # a worker death that did not reproduce when the document was run alone: harness event, counted
+            ctx.extra["unreproduced_worker_deaths"] = ctx.extra.get("unreproduced_worker_deaths", 0) + 1
+            del crashes[k]
         if k in crashes:
             c = crashes[k]
             rc = c["rc"]
@@ -460,7 +485,7 @@ def run(ctx):
                     ctx.extra["resource_exhaustion_on_huge_values"] = ctx.extra.get("resource_exhaustion_on_huge_values", 0) + 1
                     ctx.count(1)
                     continue
-                key = ("hang (CPU limit exceeded)" if rc == "hang" else "memory exhaustion") + " on " + hang_desc(kind, desc, base)
+                key = "hang / unbounded memory (CPU or RSS limit exceeded) on " + hang_desc(kind, desc, base)
             ctx.count(1, key=("crash", key))
             ctx.violation("crash: " + key, "%s: worker died (rc=%s, reproduced alone=%s): %s" % (ident, rc, c.get("confirmed_single"), key),
                           {"xml": x, "rc": str(rc), "stderr_tail": c.get("stderr", "")[-3000:]})
@@ -489,7 +514,8 @@ def run(ctx):
             rejected = o in ("perror", "cerror", "perror0", "cerror0")
             el = base.split("/")[1].split("[")[0] if "/" in base else base
             par = base.split("/")[0]
-            where = ("[default]" if "[default]" in base else "") + (" inside <%s>" % par if par in ("frame", "replicate") else "")
+            where = "[default]" if "[default]" in base else ""
+            tested = tested_attr(desc)
             if expect == "accept" and o != "model":
                 ctx.violation("corpus document rejected: " + base, "%s: %s %s" % (ident, o, m), {"xml": x})
             elif expect == "reject" and o == "model":
@@ -497,11 +523,15 @@ def run(ctx):
                     ctx.violation("schema violation accepted: nothing below <frame>/<replicate> is validated (mjXSchema::Check only recurses into <body>)",
                                   "%s: the document violates mjcf.schema but a model was returned" % ident, {"xml": x})
                 else:
-                    ctx.violation("schema violation accepted: %s%s %s" % (el, where, schema_desc(desc)),
+                    ctx.violation("schema violation accepted: %s%s %s" % (el, where, key_desc(desc)),
                                   "%s: the document violates mjcf.schema but a model was returned" % ident, {"xml": x})
-            elif expect == "noschema" and rejected and D.SCHEMA_MSG.search(m):
-                ctx.violation("conforming document rejected for a schema reason: %s%s %s: %s" % (el, where, schema_desc(desc), norm(m)),
+            elif expect == "noschema" and rejected and D.SCHEMA_MSG.search(m) and (
+                    tested is None or "Schema violation" in m or ("'%s'" % tested) in m or "keyword" in m):
+                # (a format / arity message about *another* attribute is a semantic dependency, e.g. numeric size vs data)
+                ctx.violation("conforming document rejected for a schema reason: %s%s %s: %s" % (el, where, key_desc(desc), norm(m)),
                               "%s: conforms to mjcf.schema but was rejected with: %s" % (ident, m), {"xml": x})
+    ctx.extra["violation_keys"] = sorted(v[0] for v in ctx.violations)
+    ctx.extra["findings"] = [{"key": v[0], "what": v[1][:300], "xml": (v[2] or {}).get("xml", "")[:1500]} for v in ctx.violations]
     ctx.extra.update(corpus_documents=len(corpus), edges_without_corpus=nocorpus, documents_generated=len(docs), documents_distinct=len(uniq),
                      outcomes=outcomes, schema_expectation_documents=nschema, truncated_corpus_documents=ntrunc_docs,
                      worker_processes=runner.nspawn, crashing_documents=len(crashes), hostile_values=hostile)
@@ -515,7 +545,7 @@ def run(ctx):
     ctx.assumptions = ["ASan+UBSan build of the tree (mjUSEASAN arena poisoning active); one process per batch, culprit confirmed alone",
                        "XML well-formedness is expat's (shim); truncation documents mostly exercise that layer",
                        "documents that ask for unbounded resources through INT_MAX-like values and run out of CPU (%.0f s) or memory are "
-                       "counted (resource_exhaustion_on_huge_values), not decided" % ctx.q(8.0, CPU_LIMIT)]
+                       "counted (resource_exhaustion_on_huge_values), not decided" % ctx.q(5.0, CPU_LIMIT)]
     if not ctx.thorough:
         ctx.exhaustive = False
 
@@ -529,6 +559,24 @@ def hang_desc(kind, desc, base):
 def itertools_combinations(names):
     import itertools
     return itertools.combinations(names, 2)
+
+
+def tested_attr(desc):
+    """attribute under test of a schema-type document description (None for constraint / cardinality documents)."""
+    m = re.match(r"(?:enum|flags|bool|int|double|float|chars)(?:\[[^\]]*\])? (\w+)", desc)
+    return m.group(1) if m else None
+
+
+def key_desc(desc):
+    """description without the concrete value: one key per (attribute, kind of test)."""
+    a = tested_attr(desc)
+    if a is None:
+        return re.sub(r" present=\[.*\]$", "", desc)[:110]
+    kind = desc.split()[0].split("[")[0]
+    tail = "keyword" if kind in ("enum", "flags", "bool") else desc.split(a, 1)[1].strip(" =")
+    if kind in ("enum", "flags", "bool") and "notakeyword" in desc:
+        tail = "non-keyword"
+    return "%s %s (%s)" % (kind, a, tail)
 
 
 def schema_desc(desc):
